@@ -15,7 +15,6 @@ NOT_APPLICABLE = {
     'C10': 'check not built yet in this round (planned, see DESIGN.md section 5)',
     'C11': 'check not built yet in this round (planned, see DESIGN.md section 5)',
     'C12': 'check not built yet in this round (planned, see DESIGN.md section 5)',
-    'C13': 'check not built yet in this round (planned, see DESIGN.md section 5)',
     'C14': 'check not built yet in this round (planned, see DESIGN.md section 5)',
     'C15': 'check not built yet in this round (planned, see DESIGN.md section 5)',
     'C18': 'check not built yet in this round (planned, see DESIGN.md section 5)',
@@ -79,4 +78,25 @@ PROPS['C08'] = dict(
     min_nontrivial=3000,
     require_counters={'scheme/tagged': 500, 'scheme/raw': 500, 'class/outlier/*': 50, 'class/equal_counts/*': 100, 'encoder_refused/*': 1},
     assumptions=['caller contract: num_values is a multiple of num_components'],
+)
+
+PROPS['C13'] = dict(
+    title='The corner table built from any triangle list is a consistent manifold structure',
+    technique='runtime monitoring: structural invariant checker at the quiescent point after CornerTable::Create (exhaustive small lists + biased random lists), ASan/UBSan',
+    level='exploration',
+    level_text=('CornerTable::Create of the tree under test is run on every list of <= 3 triangles over 5 vertex ids (1 968 875 lists; thorough adds all 244 140 625 '
+                'lists of 4 triangles) and on random lists of up to 400 triangles biased to multiply-shared edges, bow-ties, repeats, mirrored and degenerate faces; '
+                'an independent ~120-line checker then walks the table: opposite is a symmetric pairing over a shared oppositely oriented edge (input ids and split ids), '
+                'every fan walk from the representative corner terminates and visits exactly the corners mapped to the vertex, vertex parents reproduce the input ids, '
+                'degenerate faces are unlinked, counters agree with a recount.'),
+    level_note='Exhaustive only for the stated small domain (evidence key exhaustive); larger lists are sampled. Step-bounded fan walks replace a hang oracle.',
+    rule=('cases 0..15624: prefix (t1,t2) of triangles over ids 0..4: lists [t1] (if t2=0), [t1,t2], [t1,t2,t3] for all t3; thorough: cases 15625..31249: all [t1,t2,t3,t4]; '
+          'remaining cases: one random list. Non-trivial = Create returned a table that was walked completely; distinct = hash of prefix / of the face list.'),
+    runs=[dict(variant='asan', harness='c13_corner_table', cases=dict(quick=15625 + 30000, thorough=2 * 15625 + 400000))],
+    min_nontrivial=15625,
+    require_counters={'exhaustive_lists_le3': 1968875, 'random_lists': 1000},
+    exhaustive_counter='exhaustive_lists_le3',
+    exhaustive_expected=dict(quick=1968875, thorough=1968875),
+    exhaustive_scope='all lists of <= 3 triangles over vertex ids 0..4 (thorough: also all lists of 4 triangles, counter exhaustive_lists_eq4); the random lists are a sample on top',
+    assumptions=['vertex ids limited to 0..4 in the exhaustive block'],
 )
